@@ -1,12 +1,16 @@
 import Operon.Lemmas.C13
 import Operon.Lemmas.C13Lines
+import Operon.Lemmas.C13Tr
 import Operon.Gen.LysosomeLocks
+import Operon.Gen.LysosomeTranslated
 /-!
 # C13 — waste handling never hangs, stays bounded and accounts for every item
 
 Property theorems only.  Model: `Operon/Model/Lysosome.lean` (hand-written; tied to
-`operon_ai/organelles/lysosome.py` by the differential correspondence of `harness/vf/props/c13.py`) and the
-lock shapes `Operon/Gen/LysosomeLocks.lean` regenerated from the source by extractor E3 on every run.
+`operon_ai/organelles/lysosome.py` by the differential correspondence of `harness/vf/props/c13.py` AND by the
+agreement theorems `c13_translation_agrees_*` with `Operon/Gen/LysosomeTranslated.lean`, the methods translated from
+the Python source on every run) and the lock shapes `Operon/Gen/LysosomeLocks.lean` regenerated from the source by
+extractor E3 on every run.
 
 Every statement quantifies over every configuration (`max_queue_size`, `auto_digest_threshold`, retention, the
 digester table and the `on_toxic` callback as arbitrary functions that return or raise) and every history
@@ -298,6 +302,205 @@ theorem c13_toxic_concurrent (cfg : Cfg) (f : Item → Bool) (htd : cfg.toxDig =
       simp only [hty, hm, and_false, if_false, if_true] at h0 ⊢
       omega
   · simpa [hty] using h0
+
+/-! ### the translated source
+
+`Operon/Gen/LysosomeTranslated.lean` is regenerated from `lysosome.py` on every run by
+`harness/vf/extract/py2lean_lysosome.py` (a fail-closed translator of the Python AST into Lean definitions over the
+concrete state `PyS`).  The theorems below prove every translated entry point equal to the hand-written model
+(`conc` forgets the model's ghost bookkeeping), then that a whole history through the translated methods is the
+concrete part of the model's run, and finally restate the property about the translated source itself. -/
+section Translated
+set_option linter.unusedSimpArgs false
+
+/-- closes `∀ acc it, <generated loop body> acc it = <canonical loop body> acc it` (the side condition of `foldl_em`,
+    `foldl_dig`, `foldl_log`) whatever the generated body looks like, by cases on what the digester did -/
+local macro "loop_body" c:term : tactic => `(tactic| first
+  | (intro s e; rfl)
+  | (intro s it
+     simp only [emIter, pyCall_fst, pyCall_snd]
+     by_cases h1 : succeeds $c it <;> simp_all; done)
+  | (intro acc it
+     simp only [digIter, pyCall_fst, pyCall_snd]
+     by_cases h1 : succeeds $c it <;> by_cases h3 : (keysOf $c it).isEmpty <;> simp_all [dictUpdate]; done))
+
+/-- (table) Evaluated on the real class: a freshly constructed `Lysosome` stores one of its own methods in the
+    digester table for TOXIC_BYPRODUCT — the method translated as `Tr.toxic_digester` — and the table has an entry
+    for every waste type. -/
+theorem c13_translation_table_evaluated : Tr.tableEvaluated = true := by decide
+
+/-- `Lysosome.digest` as translated from the source, run on the concrete part of any model state, gives exactly the
+    concrete part of the model's `digest` and the same `DigestResult` (success flag, recycled dict, disposed count,
+    number of errors), for every `max_items` (None, 0, positive, negative). -/
+theorem c13_translation_agrees_digest (cfg : Cfg) (s : State) (k : Option Int) :
+    Tr.digest cfg (conc s) k = (conc (digest cfg s k).1, (digest cfg s k).2.toDigest) := by
+  have h : ∀ p : PyS, Tr.digest cfg p k = pyDigestCore cfg p (sliceCount p.queue.length k) false := by
+    intro p
+    cases h : pyTruthyOInt k <;>
+      simp only [Tr.digest, lysTr, h, pySliceTo_truthy, drop_length_take, Bool.false_eq_true, if_false, if_true]
+    all_goals simp (disch := loop_body cfg) only [foldl_dig cfg]
+    · simp [pyDigestCore, sliceCount_falsy _ _ h]
+    · simp [pyDigestCore]
+  rw [h, pyDigestCore_conc]
+  rfl
+
+/-- The translated `ingest` (with whatever helpers it calls: emergency digest at capacity, append, counters,
+    auto-digest of half the queue at the threshold with its errors logged), for a re-entrant lock, on the `Waste`
+    object the model numbers `mkItem …`: exactly the concrete part of the model's `ingest`. -/
+theorem c13_translation_agrees_ingest (cfg : Cfg) (hre : cfg.reent = true) (s : State) (id : Nat) (ty : WType)
+    (c : Nat) (st : Stamp) :
+    Tr.ingest cfg (conc s) (mkItem s id ty c st) = (conc (ingest cfg s id ty c st).1, ()) := by
+  have hd : ∀ (p : PyS) k, Tr.digest cfg p k = pyDigestCore cfg p (sliceCount p.queue.length k) false := by
+    intro p k
+    cases h : pyTruthyOInt k <;>
+      simp only [Tr.digest, lysTr, h, pySliceTo_truthy, drop_length_take, Bool.false_eq_true, if_false, if_true]
+    all_goals simp (disch := loop_body cfg) only [foldl_dig cfg]
+    · simp [pyDigestCore, sliceCount_falsy _ _ h]
+    · simp [pyDigestCore]
+  have h : ∀ (p : PyS) (it : Item), Tr.ingest cfg p it = (pyIngest cfg p it, ()) := by
+    intro p it
+    simp only [Tr.ingest, lysTr, hd]
+    simp (disch := loop_body cfg) only [foldl_em cfg, foldl_log, foldl_dig cfg]
+    simp only [pyDigestCore_auto]
+    by_cases h1 : p.queue.length ≥ cfg.maxQ <;> rcases Nat.lt_or_ge p.queue.length 2 with h2 | h2
+    all_goals first
+      | (have h2a : p.queue.length / 2 = 0 := by omega
+         have h2b : ¬ 2 ≤ p.queue.length := by omega
+         simp [h1, h2a, h2b, pyIngest, pyEnqueue, pyEmergency]
+         try (split <;> rfl))
+      | (have h2a : ¬ p.queue.length / 2 = 0 := by omega
+         have h2b : 0 < p.queue.length / 2 := by omega
+         simp [h1, h2, h2a, h2b, pyIngest, pyEnqueue, pyEmergency]
+         try (split <;> rfl))
+  rw [h, pyIngest_conc cfg hre]
+
+/-- `ingest_error` / `ingest_sensitive` as translated: they build a `Waste` of type FAILED_OPERATION resp.
+    TOXIC_BYPRODUCT (whatever the caller-visible rest of the object is) and `ingest` it. -/
+theorem c13_translation_agrees_ingest_error (cfg : Cfg) (p : PyS) (w : Item) :
+    Tr.ingest_error cfg p w = Tr.ingest cfg p { w with ty := .failedOp } := by
+  simp only [Tr.ingest_error, lysTr]
+
+theorem c13_translation_agrees_ingest_sensitive (cfg : Cfg) (p : PyS) (w : Item) :
+    Tr.ingest_sensitive cfg p w = Tr.ingest cfg p { w with ty := .toxic } := by
+  simp only [Tr.ingest_sensitive, lysTr]
+
+/-- The translated `autophagy`: the expiry filter `now - created_at < retention_period` on exact microseconds, the
+    TypeError on a timezone-aware timestamp (nothing changed, `none`), and the returned count. -/
+theorem c13_translation_agrees_autophagy (cfg : Cfg) (s : State) :
+    Tr.autophagy cfg (conc s) = (conc (autophagy cfg s).1, (autophagy cfg s).2.toRemoved) := by
+  have h : ∀ p : PyS, Tr.autophagy cfg p = pyAutophagy cfg p := by
+    intro p
+    have hk : keeps cfg p.clock = fun w => decide (((p.clock : Int) - w.created) < cfg.retention) := rfl
+    simp only [Tr.autophagy, lysTr, Option.map_map, pyFilterM_timeSub]
+    unfold pyAutophagy
+    by_cases h : p.queue.any (·.tz)
+    · simp [h]
+    · simp [h, length_sub_filter, hk]
+  rw [h, pyAutophagy_conc]
+  rfl
+
+theorem c13_translation_agrees_clear_recycling_bin (cfg : Cfg) (s : State) :
+    Tr.clear_recycling_bin cfg (conc s) = (conc { s with bin := [] }, ()) := by
+  simp only [Tr.clear_recycling_bin, lysTr]
+  rfl
+
+/-- The method the object stores for TOXIC_BYPRODUCT, as translated (`on_toxic` called iff it is set, once, before
+    anything else; its exception propagates; the result is the empty dict): exactly what the model's `digestOne` says
+    the table entry does for a sensitive item when no custom toxic digester is registered. -/
+theorem c13_translation_agrees_toxic_digester (cfg : Cfg) (htd : cfg.toxDig = none) (p : PyS) (it : Item)
+    (hty : it.ty = .toxic) :
+    Tr.toxic_digester cfg p it =
+      ({ p with toxicLog := p.toxicLog ++ (pyCallDigester cfg it).2 }, (pyCallDigester cfg it).1) := by
+  obtain ⟨maxQ, thr, ret, reent, dig, toxDig, onToxic⟩ := cfg
+  simp only at htd
+  subst htd
+  cases onToxic with
+  | none => simp [Tr.toxic_digester, lysTr, pyCallDigester, digestOne, hty, pyCallback]
+  | some f => cases hf : f it <;> simp [Tr.toxic_digester, lysTr, pyCallDigester, digestOne, hty, pyCallback, hf]
+
+/-- one protocol operation executed by the TRANSLATED methods -/
+def trStep (cfg : Cfg) (r : PyRun) : Op → PyRun
+  | .ingest id ty c st => ⟨(Tr.ingest cfg r.obj (mkItemPy r.obj id ty c st)).1, r.reported, r.expired⟩
+  | .digest k => ⟨(Tr.digest cfg r.obj k).1, r.reported + (Tr.digest cfg r.obj k).2.errors.length, r.expired⟩
+  | .autophagy => ⟨(Tr.autophagy cfg r.obj).1, r.reported, r.expired + (Tr.autophagy cfg r.obj).2.getD 0⟩
+  | .advance us => ⟨{ r.obj with clock := r.obj.clock + us }, r.reported, r.expired⟩
+  | .clearBin => ⟨(Tr.clear_recycling_bin cfg r.obj).1, r.reported, r.expired⟩
+
+def trRun (cfg : Cfg) : PyRun → List Op → PyRun
+  | r, [] => r
+  | r, op :: ops => trRun cfg (trStep cfg r op) ops
+
+/-- A whole history executed by the translated methods, from a fresh object, is the concrete part of the model's run
+    (for any configuration with a re-entrant lock, any digesters, any history): same queue, counters, bin, callback
+    log, log records, same sum of reported errors and of `autophagy()` results. -/
+theorem c13_translated_history_agrees (cfg : Cfg) (hre : cfg.reent = true) (ops : List Op) :
+    trRun cfg ⟨conc init, 0, 0⟩ ops =
+      ⟨conc (run cfg init ops), (run cfg init ops).reported, ((run cfg init ops).expiredRet : Int)⟩ := by
+  have key : ∀ (ops : List Op) (s : State), s.dead = false →
+      trRun cfg ⟨conc s, s.reported, (s.expiredRet : Int)⟩ ops =
+        ⟨conc (run cfg s ops), (run cfg s ops).reported, ((run cfg s ops).expiredRet : Int)⟩ := by
+    intro ops
+    induction ops with
+    | nil => intro s _; rfl
+    | cons op ops ih =>
+      intro s hd
+      have hstep : trStep cfg ⟨conc s, s.reported, (s.expiredRet : Int)⟩ op =
+          ⟨conc (step cfg s op).1, (step cfg s op).1.reported, ((step cfg s op).1.expiredRet : Int)⟩ := by
+        cases op with
+        | ingest id ty c st =>
+          have hs : step cfg s (.ingest id ty c st) = ingest cfg s id ty c st := by simp [step, hd]
+          simp only [hs, trStep, mkItemPy_conc, c13_translation_agrees_ingest cfg hre,
+            (ingest_reported cfg hre s id ty c st).1, (ingest_reported cfg hre s id ty c st).2]
+        | digest k =>
+          have hs : step cfg s (.digest k) = digest cfg s k := by simp [step, hd]
+          simp only [hs, trStep, c13_translation_agrees_digest]
+          simp [digest, digestCore, Obs.toDigest, PyDigestResult.ofModel]
+        | autophagy =>
+          have hs : step cfg s .autophagy = autophagy cfg s := by simp [step, hd]
+          have h1 := c13_translation_agrees_autophagy cfg s
+          have h2 := autophagy_expired cfg s
+          rw [pyAutophagy_conc] at h2
+          simp only [hs, trStep, h1, autophagy_reported, h2]
+          congr 1
+        | advance us =>
+          have hs : step cfg s (.advance us) = ({ s with clock := s.clock + us }, .ok) := by simp [step, hd]
+          rw [hs]; rfl
+        | clearBin =>
+          have hs : step cfg s .clearBin = ({ s with bin := [] }, .ok) := by simp [step, hd]
+          simp only [hs, trStep, c13_translation_agrees_clear_recycling_bin]
+      show trRun cfg (trStep cfg _ op) ops = _
+      rw [hstep]
+      exact ih _ (step_returns cfg hre s op hd).2
+  exact key ops init rfl
+
+/-- **The property about the translated source.**  For the methods as translated from `lysosome.py` on this run, any
+    configuration (re-entrant lock), any digesters and callback, any history from a fresh object: the queue bound
+    (for `max_queue_size ≥ 2`); the conservation equation over the object's own counters, the returned error counts,
+    the log records and the `autophagy()` results; nothing extracted from a sensitive item in the recycling bin; and
+    no item handed to `on_toxic` twice (built-in toxic digester). -/
+theorem c13_translated_source_satisfies_property (cfg : Cfg) (hre : cfg.reent = true) (ops : List Op) :
+    let r := trRun cfg ⟨conc init, 0, 0⟩ ops
+    (2 ≤ cfg.maxQ → r.obj.queue.length ≤ cfg.maxQ) ∧
+    (r.obj.ingested : Int) =
+      r.obj.queue.length + r.obj.digested + (r.reported + r.obj.autoLogged) + r.obj.emLogged + r.expired ∧
+    (cfg.toxDig = none → ∀ kv ∈ r.obj.bin, kv.2.ty ≠ .toxic) ∧
+    (cfg.toxDig = none → ∀ f, cfg.onToxic = some f → ∀ it, r.obj.toxicLog.count it ≤ 1) := by
+  intro r
+  have hr : r = ⟨conc (run cfg init ops), (run cfg init ops).reported, ((run cfg init ops).expiredRet : Int)⟩ :=
+    c13_translated_history_agrees cfg hre ops
+  rw [hr]
+  refine ⟨fun h2 => c13_queue_bounded cfg h2 ops, ?_, fun htd => c13_toxic_never_recycled cfg htd ops, ?_⟩
+  · have := c13_conservation cfg ops
+    simp only [State.ingested] at this
+    simp only [conc]
+    omega
+  · intro htd f hot it
+    have := c13_toxic_callback_exactly_once_when_processed cfg f htd hot ops it
+    simp only [conc]
+    rw [this]
+    split <;> omega
+
+end Translated
 
 /-! ### Non-vacuity: concrete configurations and histories meeting the hypotheses, exercising every fate -/
 
